@@ -128,12 +128,26 @@ func sysEW(prop string, r *rng, emit func(string)) {
 					}
 				}
 			case "C12":
-				for _, op := range unOps {
-					var p pb
-					preA, ia := source(r, la, sh, -2)
-					a := p.add(preA, ia)
-					p.ops = append(p.ops, fmt.Sprintf("un:%s:%d:safe", op, a))
-					emit(fmt.Sprintf("prog %s %s", dt, p.prog()))
+				for _, op := range append(append([]string{}, unOps...), "clamp.0.2", "apply.neg", "apply.square", "apply.abs") {
+					for _, mode := range []string{"safe", "unsafe", "reuse", "incr"} {
+						if mode != "safe" && !strings.HasPrefix(op, "clamp") && !strings.HasPrefix(op, "apply") && op != "neg" {
+							continue // the option modes of the generated unary operations share one template
+						}
+						var p pb
+						preA, ia := source(r, la, sh, -2)
+						a := p.add(preA, ia)
+						m := mode
+						if mode == "reuse" || mode == "incr" {
+							preR, ir := source(r, "rm", sh, 40)
+							m = fmt.Sprintf("%s.%d", mode, p.add(preR, ir))
+						}
+						if strings.HasPrefix(op, "apply.") {
+							p.ops = append(p.ops, fmt.Sprintf("apply:%s:%d:%s", op[6:], a, m))
+						} else {
+							p.ops = append(p.ops, fmt.Sprintf("un:%s:%d:%s", op, a, m))
+						}
+						emit(fmt.Sprintf("prog %s %s", dt, p.prog()))
+					}
 				}
 			}
 		}
